@@ -1,5 +1,6 @@
 import Driver.Common
 import EgVerif.Model.SpecGuards
+import EgVerif.Spec.SpecGuards
 /-! Judge for C13: evaluates `pipelineValid`, `pipelineInitOK`, `pipelineHandleOK` of
 `Model/SpecGuards.lean` on the very document the harness handed to `supervisor.NewSpec`, and compares
 with what the real validation / instantiation / request handling did. -/
@@ -127,34 +128,34 @@ def verdict (m : Pred) (obs : Json) : Verdict :=
     ++ (if accepted && !initOK then ["hazard:init"] else [])
     ++ (if accepted && initOK && !handleOK then
           m.handleGuards.eraseDups.map (fun g => (if crashed && explains g cr then "hazard-hit:" else "hazard-idle:") ++ g) else [])
+  -- agree / spec come from the executable specification `Spec/SpecGuards.judgeCore` (the function the
+  -- acceptance lemmas of Props/C13.lean are about); the rest below only chooses sig / note / tags
+  let attr := attributeCrash m cr
+  let core := judgeCore valid initOK m.nullElem
+    { accepted := accepted, crashed := crashed,
+      initPhase := phase == "Init" || phase == "Inject" || phase == "Inherit", explained := attr.1 }
   if m.nullElem then
-    -- malformed stream: YAML null in place of an object; accept/reject is not modelled
-    { agree := true, spec := !(accepted && crashed), expected := expected,
+    { agree := core.1, spec := core.2, expected := expected,
       tags := tags ++ ["null-element"], nontrivial := accepted,
       sig := if accepted && crashed then
-               (match attributeCrash m cr with
+               (match attr with
                 | (true, g) => g
                 | (false, g) => if has cr.msg "nil pointer dereference" then "panic:null-element" else g)
              else "",
       note := if crashed then optStr crash "msg" ++ " @ " ++ site else "" }
   else if accepted != valid then
-    -- accept/reject disagreement: the correspondence is broken (and a crash is still a violation)
-    { agree := false, spec := !(accepted && crashed), expected := expected, tags := tags ++ ["valid-mismatch"],
-      sig := if accepted && crashed then (attributeCrash m cr).2 else "",
+    { agree := core.1, spec := core.2, expected := expected, tags := tags ++ ["valid-mismatch"],
+      sig := if accepted && crashed then attr.2 else "",
       note := "validation " ++ (if accepted then "accepted" else "rejected: " ++ optStr obs "err")
               ++ " but model valid=" ++ toString valid }
   else if !accepted then
-    { agree := true, spec := true, expected := expected, tags := tags, nontrivial := false }
+    { agree := core.1, spec := core.2, expected := expected, tags := tags, nontrivial := false }
   else
     if crashed then
-      let (agree0, sig) := attributeCrash m cr
-      -- a Handle crash of a spec whose Init should already have failed is a disagreement
-      let agree := agree0 && (initOK || phase == "Init" || phase == "Inject" || phase == "Inherit")
-      { agree := agree, spec := false, expected := expected, tags := tags, sig := sig,
+      { agree := core.1, spec := core.2, expected := expected, tags := tags, sig := attr.2,
         note := optStr crash "msg" ++ " @ " ++ site }
     else
-      -- no crash: Init/Inject guards are deterministic, so the model must not predict one
-      { agree := initOK, spec := true, expected := expected, tags := tags,
+      { agree := core.1, spec := core.2, expected := expected, tags := tags,
         note := if initOK then "" else "model predicts an Init/Inject panic, none observed" }
 
 def judge : Judge := liftJudge fun input obs => do
